@@ -14,6 +14,8 @@ REPRESENTATIVES_ALL = {
     "increasing": [[1.0, 2.0, 4.0, 7.0], [0.1, 0.2, 0.4, 0.7], [-7.0, -4.0, -2.0, -1.5]],
     "decreasing": [[7.0, 4.0, 2.0, 1.0], [0.7, 0.4, 0.2, 0.1], [-1.5, -2.0, -4.0, -7.0]],
     "neither": [[1.0, 4.0, 2.0, 7.0], [0.1, 0.4, 0.2, 0.7], [4.0, 1.0, 7.0, 2.0], [-1.0, -4.0, -2.0, -7.0]],
+    # an edge that is not a number compares false with everything: such bins have no order at all
+    "unordered": [[1.0, float("nan"), 4.0, 7.0], [7.0, 4.0, float("nan"), 1.0], [float("nan"), 1.0, 2.0, 4.0], [7.0, 4.0, 2.0, float("nan")]],
 }
 REPRESENTATIVES = {k: v[0] for k, v in REPRESENTATIVES_ALL.items()}
 
@@ -115,9 +117,12 @@ def value(v, env):
 
 def truth_hook(env):
     """call_hook deciding all()/any() of a recorded array expression on the representative vectors in env."""
-    from .absint import Builtin, BoundMethod
+    from .absint import Builtin, BoundMethod, ExtRef
 
     def hook(ev, f, args, kw, node):
+        if isinstance(f, ExtRef) and f.path in ("numpy.all", "numpy.any", "numpy.alltrue", "numpy.sometrue") and len(args) == 1 and not kw and isinstance(args[0], Obj):
+            r = value(args[0], env)
+            return (all if f.path in ("numpy.all", "numpy.alltrue") else any)(r if isinstance(r, list) else [r])
         if isinstance(f, Builtin) and f.name in ("all", "any") and args and isinstance(args[0], Obj):
             r = value(args[0], env)
             return (all if f.name == "all" else any)(r if isinstance(r, list) else [r])
